@@ -36,6 +36,8 @@ type durView struct {
 	violation []string
 	saves     int
 	terms     map[uint64]uint64 // the log as it was made durable: index -> term (an append replaces the suffix)
+	sums      map[uint64]uint64 // ... and index -> checksum of the entry's payload as the store holds it
+	slowSave  time.Duration     // widen the window between a leader's send and its durable write (bursts)
 	logLast   uint64
 }
 
@@ -44,7 +46,21 @@ type monWAL struct {
 	v *durView
 }
 
+func payloadSum(b []byte) uint64 {
+	h := uint64(1469598103934665603)
+	for _, c := range b {
+		h = (h ^ uint64(c)) * 1099511628211
+	}
+	return h
+}
+
 func (w *monWAL) Save(h raftpb.HardState, es []raftpb.Entry, s raftpb.Snapshot) error {
+	w.v.mu.Lock()
+	d := w.v.slowSave
+	w.v.mu.Unlock()
+	if d > 0 && len(es) > 0 {
+		time.Sleep(d)
+	}
 	err := w.WAL.Save(h, es, s)
 	w.v.mu.Lock()
 	defer w.v.mu.Unlock()
@@ -90,20 +106,34 @@ func (w *monWAL) Save(h raftpb.HardState, es []raftpb.Entry, s raftpb.Snapshot) 
 		}
 		if w.v.terms == nil {
 			w.v.terms = map[uint64]uint64{}
+			w.v.sums = map[uint64]uint64{}
 		}
 		if !etcdRaft.IsEmptySnap(s) && s.Metadata.Index >= w.v.logLast {
 			w.v.terms = map[uint64]uint64{}
+			w.v.sums = map[uint64]uint64{}
 			w.v.logLast = s.Metadata.Index
 		}
 		if len(es) > 0 {
 			for _, e := range es {
 				w.v.terms[e.Index] = e.Term
+				delete(w.v.sums, e.Index)
 			}
 			last := es[len(es)-1].Index
 			for i := last + 1; i <= w.v.logLast; i++ {
 				delete(w.v.terms, i)
+				delete(w.v.sums, i)
 			}
 			w.v.logLast = last
+			// the payloads as the store holds them now (read back: what a restart or a later append message will see)
+			if stored, e := w.WAL.Entries(es[0].Index, last+1, ^uint64(0)); e == nil {
+				for _, e := range stored {
+					// membership entries are left out: every member writes its own bootstrap entries (each carries
+					// the writer's address only), they are equal in effect, not in bytes
+					if e.Type == raftpb.EntryNormal {
+						w.v.sums[e.Index] = payloadSum(e.Data)
+					}
+				}
+			}
 		}
 	}
 	return err
@@ -136,6 +166,7 @@ func runC05Schedule(r *rng, nEvents int, script []string) (c05Case, error) {
 	nodes := []uint64{1, 2, 3}
 	c := newSimCluster(nodes)
 	views := map[uint64]*durView{}
+	mons := map[uint64]*monWAL{}
 	var vmu sync.Mutex
 	c.wrapWAL = func(node uint64, part int, w wal.WAL) wal.WAL {
 		vmu.Lock()
@@ -168,7 +199,9 @@ func runC05Schedule(r *rng, nEvents int, script []string) (c05Case, error) {
 			}
 			v.mu.Unlock()
 		}
-		return &monWAL{WAL: w, v: v}
+		mw := &monWAL{WAL: w, v: v}
+		mons[node] = mw
+		return mw
 	}
 	var mmu sync.Mutex
 	msgs := 0
@@ -377,6 +410,115 @@ func runC05Schedule(r *rng, nEvents int, script []string) (c05Case, error) {
 					cs.Events = append(cs.Events, c05Event{Kind: "restart", Node: m})
 				}
 			}
+		case 'L':
+			// a long stretch of writes (more log entries than the periodic snapshot waits for), one after the other
+			ensureLeader()
+			l := leaderOf()
+			if l == 0 {
+				l = 1
+			}
+			for k := 0; k < 5200; k++ {
+				write(l, 600*time.Millisecond)
+			}
+		case 'T':
+			// the periodic snapshot of the real loop (every 10 s) is taken on replica n while its durable writes are slow
+			// and other callers keep writing fresh items through the other replicas: what the snapshot is labelled with
+			// must be what the replica has applied
+			vmu.Lock()
+			if v := views[n]; v != nil {
+				v.mu.Lock()
+				v.slowSave = 4 * time.Millisecond
+				v.mu.Unlock()
+			}
+			vmu.Unlock()
+			var omu sync.Mutex
+			var twg sync.WaitGroup
+			stopAt := time.Now().Add(10500 * time.Millisecond)
+			for wk := 0; wk < 4; wk++ {
+				via := group[(wk+1)%len(group)]
+				if via == n {
+					via = group[(wk+2)%len(group)]
+				}
+				var wops []c03Op
+				for k := 0; k < 4000; k++ {
+					wops = append(wops, c03Op{Kind: "insert", Id: uuidFrom(r).String(), Vec: genVec(r, 2)})
+				}
+				twg.Add(1)
+				go func(via uint64, wops []c03Op) {
+					defer twg.Done()
+					for _, op := range wops {
+						if time.Now().After(stopAt) {
+							return
+						}
+						ctx, cancel := context.WithTimeout(context.Background(), 800*time.Millisecond)
+						e := c.nodes[via].datasets[dsid].Insert(ctx, mustUUID(op.Id), f32bitsVec(op.Vec), nil)
+						cancel()
+						omu.Lock()
+						cs.Ops = append(cs.Ops, op)
+						cs.Acked = append(cs.Acked, e == nil || errClass(e) == "exists")
+						omu.Unlock()
+					}
+				}(via, wops)
+			}
+			twg.Wait()
+			cs.Events = append(cs.Events, c05Event{Kind: "periodic-snapshot-window", Node: n})
+			vmu.Lock()
+			for _, m := range group {
+				if mw := mons[m]; mw != nil {
+					if sn, e := mw.WAL.Snapshot(); e == nil {
+						cs.Events = append(cs.Events, c05Event{Kind: fmt.Sprintf("stored-snapshot-index:%d", sn.Metadata.Index/1000*1000), Node: m})
+					}
+				}
+			}
+			vmu.Unlock()
+			vmu.Lock()
+			if v := views[n]; v != nil {
+				v.mu.Lock()
+				v.slowSave = 0
+				v.mu.Unlock()
+			}
+			vmu.Unlock()
+		case 'X':
+			// a burst: four callers write fresh items through node n at the same moment, while every replica's durable
+			// writes are slowed a little (a leader sends an entry before it makes it durable: both must carry the same bytes)
+			ensureLeader()
+			vmu.Lock()
+			for _, v := range views {
+				v.mu.Lock()
+				v.slowSave = 3 * time.Millisecond
+				v.mu.Unlock()
+			}
+			vmu.Unlock()
+			type bres struct {
+				op    c03Op
+				acked bool
+			}
+			var bops []c03Op
+			for k := 0; k < 4; k++ {
+				bops = append(bops, c03Op{Kind: "insert", Id: uuidFrom(r).String(), Vec: genVec(r, 2)})
+			}
+			resc := make(chan bres, len(bops))
+			for _, op := range bops {
+				go func(op c03Op) {
+					ctx, cancel := context.WithTimeout(context.Background(), 800*time.Millisecond)
+					e := c.nodes[n].datasets[dsid].Insert(ctx, mustUUID(op.Id), f32bitsVec(op.Vec), nil)
+					cancel()
+					resc <- bres{op, e == nil || errClass(e) == "exists"}
+				}(op)
+			}
+			for range bops {
+				b := <-resc
+				cs.Ops = append(cs.Ops, b.op)
+				cs.Acked = append(cs.Acked, b.acked)
+				cs.Events = append(cs.Events, c05Event{Kind: "write", Node: n, Id: b.op.Id, Op: "insert", Acked: b.acked})
+			}
+			vmu.Lock()
+			for _, v := range views {
+				v.mu.Lock()
+				v.slowSave = 0
+				v.mu.Unlock()
+			}
+			vmu.Unlock()
 		case 'A', 'a':
 			// node n becomes a replica of the running group: the catalogue change is applied on every node (on n itself
 			// partition.addNode starts the group's raft node over n's empty log store), then - 'A' - the leader proposes
@@ -558,7 +700,12 @@ func runC05Schedule(r *rng, nEvents int, script []string) (c05Case, error) {
 			diag := ""
 			dumps := ""
 			for _, n := range group {
-				dumps += fmt.Sprintf("%v | ", dump(n))
+				d := dump(n)
+				txt := fmt.Sprint(d)
+				if len(txt) > 400 {
+					txt = fmt.Sprintf("%d items: %s ...", len(d), txt[:400])
+				}
+				dumps += txt + " | "
 			}
 			for _, n := range group {
 				g := c.nodes[n].datasets[dsid].VerifRaft(0)
@@ -597,6 +744,12 @@ func runC05Schedule(r *rng, nEvents int, script []string) (c05Case, error) {
 					viol = append(viol, fmt.Sprintf("forked history: nodes %d and %d both hold position %d as committed, with terms %d and %d%s", x, y, i, tx, ty, tag))
 					break
 				}
+				sx, okx2 := vx.sums[i]
+				sy, oky2 := vy.sums[i]
+				if okx && oky && okx2 && oky2 && tx == ty && sx != sy {
+					viol = append(viol, fmt.Sprintf("forked history: nodes %d and %d both hold position %d as committed with term %d, with different payloads (checksums %x and %x)", x, y, i, tx, sx, sy))
+					break
+				}
 			}
 			vy.mu.Unlock()
 			vx.mu.Unlock()
@@ -622,7 +775,7 @@ func runC05Schedule(r *rng, nEvents int, script []string) (c05Case, error) {
 
 func runC05(a *args) error {
 	r := newRng(a.seed)
-	st := newStats("3-replica partition groups on a simulated cluster: six scripted prologues (the fifth and sixth: a replica added to a running group through partition.addNode and a proposed join; the fourth: a replica brought up to date by a snapshot message after the others compacted) (a deposed leader's uncommitted tail overwritten by a shorter suffix, then a restart of that replica - twice; writes, idling, local snapshot + compaction on every replica, then each replica restarted in turn) and schedules of 25..45 events — writes through any connected node (55%), cutting one node off / healing (message loss in both directions), crash of one replica (clean stop or abrupt) and restart through the real boot path with the partition's node ids; every raft message checked against the sender's durable state (vote grants, append acknowledgements, terms), every Save checked for a hard state moving backwards, every reopened log compared with the log that was made durable (last index, term at every index), convergence and explained contents after faults stop; non-trivial = contains a crash+restart and a cut; distinct by hash of the event list")
+	st := newStats("3-replica partition groups on a simulated cluster: eight scripted prologues (the eighth: bursts of four concurrent writers with slowed durable writes, payloads of committed positions compared between replicas; the seventh: the recorded finding; the fifth and sixth: a replica added to a running group through partition.addNode and a proposed join; the fourth: a replica brought up to date by a snapshot message after the others compacted) (a deposed leader's uncommitted tail overwritten by a shorter suffix, then a restart of that replica - twice; writes, idling, local snapshot + compaction on every replica, then each replica restarted in turn) and schedules of 25..45 events — writes through any connected node (55%), cutting one node off / healing (message loss in both directions), crash of one replica (clean stop or abrupt) and restart through the real boot path with the partition's node ids; every raft message checked against the sender's durable state (vote grants, append acknowledgements, terms), every Save checked for a hard state moving backwards, every reopened log compared with the log that was made durable (last index, term at every index), convergence and explained contents after faults stop; non-trivial = contains a crash+restart and a cut; distinct by hash of the event list")
 	var cases []c05Case
 	seen := map[string]bool{}
 	for i := 0; i < a.n; i++ {
@@ -646,6 +799,9 @@ func runC05(a *args) error {
 		case 4:
 			// a third replica joins a running two-replica group: it must take the group's log, not start one of its own
 			script = []string{"G12", "W1", "W2", "W1", "S", "A3", "S", "W1", "W3", "W2", "S"}
+		case 7:
+			// bursts of concurrent writes through the leader and through a follower
+			script = []string{"W1", "S", "X1", "X1", "X2", "S", "X1", "X3", "S", "W2", "S"}
 		case 6:
 			// the recorded finding: node 3 becomes a replica of a running group; before its store holds anything it goes
 			// down and comes back booting the group as the allocator does after a catalogue snapshot - with the
@@ -655,7 +811,14 @@ func runC05(a *args) error {
 			// one replica grows to two, then to three
 			script = []string{"G1", "W1", "W1", "W1", "S", "A2", "S", "W1", "W2", "A3", "S", "W3", "S"}
 		}
+		if a.tier == "thorough" && i == 8 {
+			// the periodic snapshot of the real loop: more than 5000 entries, then the 10 s tick on a replica whose durable
+			// writes are slow while the others take writes; that replica then crashes and restarts from what it stored
+			script = []string{"G123", "L", "T1", "S", "K1", "S", "R", "S"}
+			simBadgerTable = 48 << 20 // the periodic snapshot of a few thousand items is one value of a few MB
+		}
 		cs, err := runC05Schedule(r.fork(), 25+r.intn(21), script)
+		simBadgerTable = 1 << 20
 		if err != nil {
 			return err
 		}
